@@ -262,6 +262,9 @@ def cases(tier):
         for k2 in ("sampled", "range", "set"):
             yield {"k": "mtag", "specs": [[k1, 0], [k2, 0]], "shape": [4, 3], "pos2d": True}
             yield {"k": "mtag", "specs": [[k1, 0], [k2, 0]], "shape": [4, 3], "pos2d": False}
+    for kind in ("sampled", "range"):
+        for dt in ("uint8", "int8", "int16", "uint16"):
+            yield {"k": "mtag-int", "kind": kind, "dtype": dt}
     for kind in ("sampled", "range", "set"):
         yield {"k": "feat", "kind": kind}
     for iv in (0.1, 0.3, 0.7, 1e-3):
@@ -465,6 +468,49 @@ def run_mtag(case, r):
         s.close()
 
 
+def run_mtag_int(case, r):
+    """positions and extents stored in NARROW INTEGER arrays; position + extent exceeds the element type's range
+    although each value fits (the region arithmetic must not happen in the stored type)"""
+    dt = case["dtype"]
+    base, step = {"uint8": (100, 40), "int8": (-100, 50), "int16": (20000, 5000), "uint16": (40000, 8000)}[dt]
+    n = 6
+    kind = case["kind"]
+    c = [Fr(base + i * step) for i in range(n)]
+    s = S(r)
+    try:
+        data = (np.arange(n, dtype=np.float64) + 1)
+        da = s.b.create_data_array("d", "t", data=data)
+        if kind == "sampled":
+            d_ = da.append_sampled_dimension(float(step))
+            d_.offset = float(base)
+        else:
+            da.append_range_dimension([float(x) for x in c])
+        # rows: (position, extent) on samples; the last rows end beyond the element type's maximum
+        info = np.iinfo(dt)
+        cand = [(c[i], c[j] - c[i]) for i in range(n) for j in range(i, n)]
+        cand = [(p, e) for p, e in cand if info.min <= p <= info.max and info.min <= e <= info.max]
+        over = [pe for pe in cand if pe[0] + pe[1] > info.max]          # the sum leaves the element type's range
+        rows = over[:4] + [pe for pe in cand if pe not in over][:3]
+        if not over:
+            raise AssertionError("no overflowing row for %s" % dt)
+        pos = np.array([int(p) for p, _e in rows], dtype=dt)
+        ext = np.array([int(e) for _p, e in rows], dtype=dt)
+        pa = s.b.create_data_array("pos", "t", data=pos)
+        xa = s.b.create_data_array("ext", "t", data=ext)
+        mt = s.b.create_multi_tag("mt", "t", pa)
+        mt.extents = xa
+        mt.references.append(da)
+        for i, (p, e) in enumerate(rows):
+            for rn, rule in RULES:
+                sel = [select(c, p, e, rn)]
+                st, got = observe(lambda: mt.tagged_data(i, 0, rule))
+                judge(r, "C08|mtag-int|%s|%s|%s|row%d" % (kind, dt, rn, i),
+                      "multi-tag with %s positions/extents, row %d: position %s extent %s (%s), sum %s" % (dt, i, int(p), int(e), rn, int(p + e)),
+                      data, sel, contained(c, p, e), st, got)
+    finally:
+        s.close()
+
+
 def run_feat(case, r):
     kind = case["kind"]
     n = 5
@@ -634,6 +680,6 @@ def run_multiref(case, r):
 
 def run_case(case):
     r = R()
-    {"units-mixed": run_units_mixed, "tag": run_tag, "units": run_units, "mtag": run_mtag, "feat": run_feat, "nondyadic": run_nondyadic,
+    {"mtag-int": run_mtag_int, "units-mixed": run_units_mixed, "tag": run_tag, "units": run_units, "mtag": run_mtag, "feat": run_feat, "nondyadic": run_nondyadic,
      "multiref": run_multiref}[case["k"]](case, r)
     return r
